@@ -388,7 +388,7 @@ def gen(seed, charsigned, n, nargs=4, prefix='f'):
 #   `return e;` (ret conv(e,RET))               exprassign to the return type
 #   `for (init; c; step) body`  (for INIT COND STEP BODY), a missing clause is (skip) / (none)
 STMT_KINDS = ['decl', 'decl-init', 'set', 'opset', 'inc', 'dec', 'expr', 'ret', 'block', 'if', 'ifelse', 'while',
-              'do', 'for', 'break', 'continue', 'skip', 'switch', 'case', 'default']
+              'do', 'for', 'break', 'continue', 'skip', 'switch', 'case', 'default', 'call']
 OPSET = ['mul', 'div', 'mod', 'add', 'sub', 'shl', 'shr', 'and', 'or', 'xor']
 # which jump statements may be generated: 0 none, 1 in a loop, 2 in a switch outside any loop (the `continue` of a
 # switch inside a loop belongs to the loop), 3 in a switch inside a loop
@@ -422,6 +422,7 @@ class Gen2:
         self.ro = set()                       # loop counters: readable, never assigned by generated statements
         self.hist = {}
         self.acc = None                       # an unsigned accumulator updated in loop bodies and folded into the result
+        self.callees = []                     # stage D: (name, ret, ptys, firstarg) of the functions that may be called
         self.g = Gen(rng, self.vtys)
 
     def count(self, k):
@@ -449,9 +450,36 @@ class Gen2:
         return [k for k in scope if k not in self.ro]
 
     # every generator returns (list of (ctext, tree), terminated)
+    def call(self, scope):
+        """`[x =] f(args);` - EXPRCALL as a statement; arguments converted to the parameter types (exprassign), the
+        result to the type of x (mkassignexpr: a cast only between different types)"""
+        r = self.rng
+        name, ret, ptys, first = r.choice(self.callees)
+        csrc, ctree = [], []
+        for j, pt in enumerate(ptys):
+            if j == 0 and first is not None:
+                src = first
+                e = parse(src, self.vtys)
+            else:
+                src, e = self.expr(scope, 1)
+            csrc.append(ctext(src))
+            ctree.append(sx(conv(e, pt)))
+        self.count('call')
+        av = self.assignable(scope)
+        if av and r.random() < 0.8:
+            k = r.choice(av)
+            t = self.vtys[k]
+            self.init.add(k)
+            return [('p%d = %s(%s);' % (k, name, ', '.join(csrc)),
+                     '(call (%d %s) %s %s%s)' % (k, t, ret, name, ''.join(' ' + a for a in ctree)))]
+        return [('%s(%s);' % (name, ', '.join(csrc)),
+                 '(call (none) %s %s%s)' % (ret, name, ''.join(' ' + a for a in ctree)))]
+
     def simple(self, scope):
         """one statement without sub-statements"""
         r = self.rng
+        if self.callees and r.random() < 0.25:
+            return self.call(scope)
         x = r.random()
         av = self.assignable(scope)
         if x < 0.22 or not av:
@@ -813,6 +841,53 @@ def gen2(seed, charsigned, n, nargs=4, prefix='g', level='C'):
         s = '(fn2 %s %s (%s) (%s) (block %s))' % (name, ret, ' '.join(ptys), ' '.join(g.vtys[np_:]),
                                                  ' '.join(t for _, t in items))
         res.append((c, s, name, _args(rng, ptys, nargs), g.hist))
+    return res
+
+
+def gen3(seed, charsigned, n, nargs=4, prefix='h'):
+    """n PROGRAMS (stage D): 2-4 functions of F2 each, a function may call the ones before it (direct calls as
+    statements) and - guarded by its first parameter - itself.  Every function comes as a tuple like gen2's plus a sixth
+    component: the `(prog ...)` line for `drv_c01 eval` (its callees and itself, itself last)."""
+    global CS
+    CS = bool(charsigned)
+    rng = random.Random(((int(seed) << 1) | (1 if charsigned else 0)) * 5 + 3)
+    res = []
+    for pi in range(n):
+        nf = rng.randrange(2, 5)
+        defined = []           # (name, ret, ptys, sexpr)
+        for fi in range(nf):
+            name = '%s%d_%d' % (prefix, pi, fi)
+            rec = fi > 0 and rng.random() < 0.35
+            np_ = rng.choice([1, 1, 2, 2, 3]) if rec else rng.choice([0, 1, 1, 2, 2, 3])
+            ptys = [rng.choice(TYS) for _ in range(np_)]
+            if rec:
+                ptys[0] = rng.choice(['i', 'l', 's', 'sc'])
+            ret = rng.choice(TYS)
+            g = Gen2(rng, ptys, ret, 'C')
+            g.callees = [(d[0], d[1], d[2], None) for d in defined]
+            scope = list(range(np_))
+            pre = []
+            if rec:
+                # if (p0 <= 0 || p0 > 5) return K;   ...   the recursive calls pass p0 - 1
+                gsrc = ('B', 'lor', ('B', 'le', ('P', 0), ('K', 0, '0', True, '')), ('B', 'gt', ('P', 0), ('K', 5, '5', True, '')))
+                kv = rng.choice([0, 1, 2, 7, 100])
+                ksrc = ('K', kv, str(kv), True, '')
+                g.count('if'); g.count('ret')
+                pre = [('if (%s) return %s;' % (ctext(gsrc), ctext(ksrc)),
+                        '(if %s (ret %s))' % (sx(parse(gsrc, g.vtys)), sx(conv(parse(ksrc, g.vtys), ret))))]
+                g.ro.add(0)
+                g.callees.append((name, ret, ptys, ('B', 'sub', ('P', 0), ('K', 1, '1', True, ''))))
+            items, term = g.stmts(scope, rng.randrange(0, 2), False, rng.randrange(1, 5))
+            items = pre + items
+            if not term:
+                items.append(g.ret(scope))
+            params = ', '.join('%s p%d' % (CNAME[t], i) for i, t in enumerate(ptys)) or 'void'
+            c = '%s %s(%s) { %s }' % (CNAME[ret], name, params, ' '.join(x for x, _ in items))
+            s = '(fn2 %s %s (%s) (%s) (block %s))' % (name, ret, ' '.join(ptys), ' '.join(g.vtys[np_:]),
+                                                     ' '.join(t for _, t in items))
+            defined.append((name, ret, ptys, s))
+            evalsx = '(prog %s)' % ' '.join(d[3] for d in defined)
+            res.append((c, s, name, _args(rng, ptys, nargs), g.hist, evalsx))
     return res
 
 
